@@ -1,11 +1,17 @@
 """C18 - quadrature, differentiation and interpolation on their design classes (exact-rational part).
 
-R1  TLC checks the theorems of the specifications on every enumerated case (the generator only
-    prints a case after its theorems held): exactness classes of trapezoid / Simpson / Romberg and
-    linearity of the rules (Quadrature.tla) ...
-R2  spec->code: TLC enumerates grids x integrands (and the other case families) and prints operands
-    as exact dyadic rationals with the exact rational value the definition gives and a rounding
-    allowance; the harness converts them to floats (exactly), calls gonum and compares in big.Rat.
+Every stage is a TLC generator run over a module of specs/num whose Emit invariant prints a case only
+after the module's theorems (R1) held on it, followed by a replay of the printed cases into gonum (R2,
+spec->code, harness area "num"):
+
+  Quadrature.tla   trapezoid / Simpson / Romberg as definitions over Q on all sorted lattice grids;
+                   Gauss-Legendre structure and moment conditions for n = 1..300
+  FiniteDiff.tla   stencil definitions of the six formulas and of Derivative .. CrossLaplacian on integer
+                   polynomials with dyadic steps (bitwise comparison), exactness classes, consistency
+  DualAlgebra.tla  dual / hyperdual / quaternion / dual quaternion / dual complex algebras from basis
+                   multiplication tables, ring laws, inverses, integer powers
+  Interp.tla       piecewise constant / linear / Hermite / Akima / Fritsch-Butland / natural / clamped /
+                   not-a-knot interpolants on <= 6 integer knots by rational elimination
 """
 import json
 import os
@@ -17,7 +23,7 @@ S = lambda *a: "{" + ",".join('"%s"' % x for x in a) + "}"
 
 def quad_stages(ctx, thorough, seed):
     """(name, subst) of the Quadrature.tla generator runs."""
-    base = dict(NMIN=2, NMAX=7, DMAX=4, NPOLY=3 if thorough else 2, SEED=seed, GLMAX=1, GLALL=0,
+    base = dict(NMIN=2, NMAX=7, DMAX=4, NPOLY=3 if thorough else 2, SEED=seed, GLMIN=1, GLMAX=1, GLALL=0,
                 VLO=0 if thorough else seed % 4, VHI=3 if thorough else seed % 4)
     st = []
     if thorough:
@@ -30,7 +36,11 @@ def quad_stages(ctx, thorough, seed):
         st.append(("simpson n=6..7", dict(base, KINDS=S("simp"), NMIN=6)))
     st.append(("romberg", dict(base, KINDS=S("romb"), DMAX=8, VLO=0, VHI=3)))
     st.append(("gauss-legendre structure n<=300", dict(base, KINDS=S("gls"), GLMAX=300)))
-    st.append(("gauss-legendre moments n<=300", dict(base, KINDS=S("glm"), GLMAX=300, GLALL=1 if thorough else 0)))
+    if thorough:
+        for lo, hi in ((1, 150), (151, 230), (231, 300)):
+            st.append(("gauss-legendre all moments n=%d..%d" % (lo, hi), dict(base, KINDS=S("glm"), GLMIN=lo, GLMAX=hi, GLALL=1)))
+    else:
+        st.append(("gauss-legendre moments n<=300", dict(base, KINDS=S("glm"), GLMAX=300, GLALL=0)))
     return [("quadrature " + n, "num/Quadrature.tla", "num/Quadrature_gen.cfg", s) for n, s in st]
 
 
@@ -46,10 +56,19 @@ def fd_stages(ctx, thorough, seed):
 
 def alg_stages(ctx, thorough, seed):
     st = []
-    for types, nq, nt in ((("dual", "hyper"), 8, 24), (("quat", "dcmplx"), 6, 16), (("dquat",), 2, 8)):
-        st.append(("algebra " + "+".join(types), "num/DualAlgebra.tla", "num/DualAlgebra_gen.cfg",
-                   dict(TYPES=S(*types), NRAND=nt if thorough else nq, SEED=seed)))
+    for types, nq, nt, shards in ((("dual", "hyper"), 8, 24, 1), (("quat", "dcmplx"), 6, 16, 1), (("dquat",), 2, 8, 3)):
+        for sh in range(shards):
+            st.append(("algebra " + "+".join(types) + (" shard %d/%d" % (sh + 1, shards) if shards > 1 else ""),
+                       "num/DualAlgebra.tla", "num/DualAlgebra_gen.cfg",
+                       dict(TYPES=S(*types), NRAND=nt if thorough else nq, SEED=seed, SHARD=sh, NSHARDS=shards)))
     return st
+
+
+def interp_stages(ctx, thorough, seed):
+    base = dict(NMIN=2, NMAX=6, LMAX=7 if thorough else 6, NDATA=10 if thorough else 7, SEED=seed)
+    groups = [("const, linear, given derivatives, Akima, Fritsch-Butland", ("const", "linear", "pwcubic", "akima", "fb")),
+              ("natural, clamped", ("natural", "clamped")), ("not-a-knot", ("notaknot",))]
+    return [("interpolation " + n, "num/Interp.tla", "num/Interp_gen.cfg", dict(base, METHODS=S(*m))) for n, m in groups]
 
 
 def run(ctx):
@@ -57,7 +76,7 @@ def run(ctx):
     thorough = ctx.tier == "thorough"
     seed = ctx.seed % 1000
     hb = ctx.build("")
-    stages = quad_stages(ctx, thorough, seed) + fd_stages(ctx, thorough, seed) + alg_stages(ctx, thorough, seed)
+    stages = quad_stages(ctx, thorough, seed) + fd_stages(ctx, thorough, seed) + alg_stages(ctx, thorough, seed) + interp_stages(ctx, thorough, seed)
     stages.sort(key=lambda st: ("Hessian" not in st[0], "dquat" not in st[0], "simpson" not in st[0]))   # longest first
 
     def one(st):
